@@ -67,6 +67,10 @@ func (st *PrefixStorage) Remove() error {
 	st.Lock()
 	defer st.Unlock()
 
+	if st.prefix == nil {
+		return storage.ErrClosed.WithStack()
+	}
+
 	return RemoveByPrefix(st.Storage, st.prefix)
 }
 
@@ -93,7 +97,15 @@ func (st *PrefixStorage) Iter(
 	callback func([]byte, []byte) (bool, error),
 	sort bool,
 ) error {
-	nr := leveldbutil.BytesPrefix(st.prefix)
+	st.RLock()
+	prefix := st.prefix
+	st.RUnlock()
+
+	if prefix == nil {
+		return storage.ErrClosed.WithStack()
+	}
+
+	nr := leveldbutil.BytesPrefix(prefix)
 
 	if r != nil {
 		if r.Start != nil {
